@@ -35,6 +35,9 @@ type solver struct {
 
 const smtPrelude = `(set-option :produce-models true)
 (set-logic ALL)
+(declare-sort Atom 0)
+(declare-fun iri_host (Atom) Atom)
+(declare-fun atom_str (Atom) String)
 (declare-fun url_scheme (String) String)
 (declare-fun url_host (String) String)
 (declare-fun url_ok (String) Bool)
